@@ -413,3 +413,204 @@ def h_observe_bool(ex, st, fr, ins, a):
         v = a[1]
         ex.observed.append('%s=%s' % (bytes(a[0].b).decode(), ('true' if v else 'false') if isinstance(v, bool) else '?'))
     return None
+
+
+# ---------------------------------------------------------------- math/big as exact integers / rationals
+# A *big.Int (or *big.Rat) is a pointer to an opaque object; its mathematical value lives in the
+# path state's ghost map.  Every method below follows the documented semantics of package math/big.
+BI = '(*math/big.Int).'
+BR = '(*math/big.Rat).'
+
+
+def _bigget(st, p):
+    E = _ex()
+    if p is None:
+        raise E.GoPanic('nil *big.Int')
+    return st.ghost.get(('big', p.oid), 0)
+
+
+def _bigset(st, p, v):
+    st.ghost[('big', p.oid)] = v
+    return p
+
+
+def _bignew(ex, st, v):
+    E = _ex()
+    oid = ex.alloc(st, E.Opaque('big'))
+    p = E.Ptr(oid, ())
+    st.ghost[('big', oid)] = v
+    return p
+
+
+def _tdiv(ex, st, x, y):
+    """truncated division (Go / on big.Int.Quo), y != 0"""
+    E = _ex()
+    if isinstance(y, int):
+        if y == 0:
+            raise E.GoPanic('big: division by zero')
+        return T.tdivc(x, y), T.tmodc(x, y)
+    raise E.Unsupported('big division by a symbolic value')
+
+
+INTRINSICS['math/big.NewInt'] = lambda ex, st, fr, ins, a: _bignew(ex, st, a[0])
+INTRINSICS[P + 'zToBig'] = lambda ex, st, fr, ins, a: _bignew(ex, st, a[0])
+INTRINSICS[P + 'bigToZ'] = lambda ex, st, fr, ins, a: _bigget(st, a[0])
+INTRINSICS[P + 'ratNum'] = lambda ex, st, fr, ins, a: _ratget(st, a[0])[0]
+INTRINSICS[P + 'ratDen'] = lambda ex, st, fr, ins, a: _ratget(st, a[0])[1]
+INTRINSICS[BI + 'Sign'] = lambda ex, st, fr, ins, a: T.sub(T.b2i(T.gt(_bigget(st, a[0]), 0)), T.b2i(T.lt(_bigget(st, a[0]), 0)))
+INTRINSICS[BI + 'Set'] = lambda ex, st, fr, ins, a: _bigset(st, a[0], _bigget(st, a[1]))
+INTRINSICS[BI + 'SetUint64'] = lambda ex, st, fr, ins, a: _bigset(st, a[0], a[1])
+INTRINSICS[BI + 'SetInt64'] = lambda ex, st, fr, ins, a: _bigset(st, a[0], a[1])
+INTRINSICS[BI + 'Neg'] = lambda ex, st, fr, ins, a: _bigset(st, a[0], T.neg(_bigget(st, a[1])))
+INTRINSICS[BI + 'Mul'] = lambda ex, st, fr, ins, a: _bigset(st, a[0], T.mul(_bigget(st, a[1]), _bigget(st, a[2])))
+INTRINSICS[BI + 'Add'] = lambda ex, st, fr, ins, a: _bigset(st, a[0], T.add(_bigget(st, a[1]), _bigget(st, a[2])))
+
+
+@intrinsic(BI + 'Lsh')
+def big_lsh(ex, st, fr, ins, a):
+    n = ex.concrete(st, a[2])
+    return _bigset(st, a[0], T.mulc(_bigget(st, a[1]), 1 << n))
+
+
+@intrinsic(BI + 'Or')
+def big_or(ex, st, fr, ins, a):
+    E = _ex()
+    x, y = _bigget(st, a[1]), _bigget(st, a[2])
+    xl, _ = T.iv(x)
+    yl, _ = T.iv(y)
+    if xl is None or yl is None or xl < 0 or yl < 0:
+        raise E.Unsupported('big.Or of possibly negative values')
+    return _bigset(st, a[0], T.or_(x, y, 4096))
+
+
+def big_bitlen_concrete(ex, st, fr, ins, a):
+    E = _ex()
+    x = _bigget(st, a[0])
+    if isinstance(x, int):
+        return abs(x).bit_length()
+    ax = z_abs(ex, st, fr, ins, [x])
+    lo, hi = T.iv(ax)
+    if hi is None:
+        raise E.Unsupported('BitLen of an unbounded value')
+    l0, l1 = max(lo or 0, 0).bit_length(), hi.bit_length()
+    # binary search with forks
+    while l0 < l1:
+        mid = (l0 + l1 + 1) // 2
+        if ex.branch(st, T.ge(ax, 1 << (mid - 1))):
+            l0 = mid
+        else:
+            l1 = mid - 1
+    return l0
+
+
+@intrinsic(BI + 'BitLen')
+def big_bitlen(ex, st, fr, ins, a):
+    x = _bigget(st, a[0])
+    if isinstance(x, int):
+        return abs(x).bit_length()
+    return T.blen(z_abs(ex, st, fr, ins, [x]))
+
+
+@intrinsic(BI + 'QuoRem')
+def big_quorem(ex, st, fr, ins, a):
+    z, x, y, r = a
+    xv, yv = _bigget(st, x), _bigget(st, y)
+    q, m = _tdiv(ex, st, xv, yv)
+    _bigset(st, z, q)
+    _bigset(st, r, m)
+    return (z, r)
+
+
+@intrinsic(BI + 'Quo')
+def big_quo(ex, st, fr, ins, a):
+    q, _ = _tdiv(ex, st, _bigget(st, a[1]), _bigget(st, a[2]))
+    return _bigset(st, a[0], q)
+
+
+@intrinsic(BI + 'Exp')
+def big_exp(ex, st, fr, ins, a):
+    E = _ex()
+    z, x, y, m = a
+    if m is not None:
+        raise E.Unsupported('big.Exp with modulus')
+    xv = ex.concrete(st, _bigget(st, x))
+    yv = ex.concrete(st, _bigget(st, y))
+    if yv < 0:
+        return _bigset(st, z, 1)
+    if yv > 20000:
+        raise E.Unsupported('big.Exp exponent too large')
+    return _bigset(st, z, xv ** yv)
+
+
+@intrinsic(BI + 'Bits')
+def big_bits(ex, st, fr, ins, a):
+    E = _ex()
+    x = _bigget(st, a[0])
+    ax = z_abs(ex, st, fr, ins, [x])
+    n = (big_bitlen_concrete(ex, st, fr, ins, a) + 63) // 64
+    words = []
+    v = ax
+    for _ in range(n):
+        words.append(T.modc(v, W64))
+        v = T.divc(v, W64)
+    oid = ex.alloc(st, words)
+    return E.Slice(oid, (), 0, n, n) if n else None
+
+
+def _ratget(st, p):
+    E = _ex()
+    if p is None:
+        raise E.GoPanic('nil *big.Rat')
+    return st.ghost.get(('rat', p.oid), (0, 1))
+
+
+def _ratset(st, p, num, den):
+    st.ghost[('rat', p.oid)] = (num, den)
+    return p
+
+
+INTRINSICS[BR + 'SetUint64'] = lambda ex, st, fr, ins, a: _ratset(st, a[0], a[1], 1)
+INTRINSICS[BR + 'SetInt'] = lambda ex, st, fr, ins, a: _ratset(st, a[0], _bigget(st, a[1]), 1)
+INTRINSICS[BR + 'Neg'] = lambda ex, st, fr, ins, a: _ratset(st, a[0], T.neg(_ratget(st, a[1])[0]), _ratget(st, a[1])[1])
+
+
+@intrinsic(BR + 'SetFrac')
+def rat_setfrac(ex, st, fr, ins, a):
+    E = _ex()
+    num, den = _bigget(st, a[1]), _bigget(st, a[2])
+    if isinstance(den, int) and den == 0:
+        raise E.GoPanic('division by zero')
+    # value only (no normalisation); denominator kept positive
+    if isinstance(den, int) and den < 0:
+        num, den = T.neg(num), -den
+    return _ratset(st, a[0], num, den)
+
+
+@intrinsic(BI + 'SetBytes')
+def big_setbytes(ex, st, fr, ins, a):
+    s = a[1]
+    v = 0
+    if s is not None:
+        arr = ex._load_path(st, st.mem[s.oid], s.base)
+        for i in range(s.len):
+            v = T.add(T.mulc(v, 256), arr[s.off + i])
+    return _bigset(st, a[0], v)
+
+
+@intrinsic(BI + 'Bytes')
+def big_bytes(ex, st, fr, ins, a):
+    E = _ex()
+    x = _bigget(st, a[0])
+    ax = z_abs(ex, st, fr, ins, [x])
+    n = (big_bitlen_concrete(ex, st, fr, ins, a) + 7) // 8
+    out = []
+    v = ax
+    for _ in range(n):
+        out.append(T.modc(v, 256))
+        v = T.divc(v, 256)
+    out.reverse()
+    oid = ex.alloc(st, out)
+    return E.Slice(oid, (), 0, n, n)
+
+
+INTRINSICS['strconv.FormatUint'] = _opaque('strconv.FormatUint')
